@@ -189,10 +189,17 @@ class Ctx:
         """Run a driver (Drivers/<driver>.lean) on the given input lines; return output lines."""
         data = "\n".join(lines) + "\n"
         cmd = ["lake", "env", "lean", "--run", os.path.join("Drivers", driver + ".lean")]
-        p = subprocess.run(cmd, cwd=LEAN, input=data, text=True, timeout=timeout,
-                           stdout=subprocess.PIPE, stderr=subprocess.PIPE)
+        for attempt in range(3):
+            p = subprocess.run(cmd, cwd=LEAN, input=data, text=True, timeout=timeout,
+                               stdout=subprocess.PIPE, stderr=subprocess.PIPE)
+            # a driver process that dies without saying anything was killed from outside (memory pressure, an
+            # .olean being replaced by a concurrent build): the run is deterministic, so it is simply repeated
+            if p.returncode == 0 or p.stderr.strip() or attempt == 2:
+                break
+            time.sleep(3 + 5 * attempt)
         if p.returncode != 0:
-            raise RuntimeError("model driver %s failed: %s\n%s" % (driver, p.stderr[-2000:], p.stdout[-2000:]))
+            raise RuntimeError("model driver %s failed (rc=%s): %s\n%s"
+                               % (driver, p.returncode, p.stderr[-2000:], p.stdout[-2000:]))
         out = p.stdout.split("\n")
         if out and out[-1] == "":
             out.pop()
